@@ -50,7 +50,10 @@ ENTRY = dict(
                    "tapes, through find_cuts_full (optimum 12 found and flagged under both tapes; flag false for max_gamma below the optimum and "
                    "for a backjump limit). Closed under the global context. The model's (overhead, minimum_reached) are compared exactly with "
                    "find_cuts on ~3000 requests x 1-3 seeds per quick run (bounded-exhaustive small circuits, random circuits, the F3 witness "
-                   "class, limits far above 1024, malformed incl. a three-qubit gate), and the independent brute-force oracle runs on every case.",
+                   "class, limits far above 1024, malformed incl. a three-qubit gate), and the independent brute-force oracle runs on every case. "
+                   "Stream 'budget' (12 fixed + 50 rng-drawn circuits per quick run): 3-4 gates from two of cx / rzz(asin 1/2, 1/4, 3/4) (gammas 3, 2, 3/2, 5/2, "
+                   "exact in binary64) whose gate-cut incumbents fall BETWEEN the steps 3, 7, 15 of the wire-cut budget and whose brute-force optimum "
+                   "needs a wire cut (first or second gate input); unrestricted search, strict model comparison and oracle.",
         level_note=STD_NOTE + "No axioms. heapq is modelled as extract-min over a list (oracle contract O-heap); the numpy Generator as a recorded tape.",
         assumptions=[
             "Model/CutFinder*.v (written for C07) is a hand-written model of find_cuts and the cut_finding package; tied to the source by the C07 "
@@ -82,6 +85,6 @@ ENTRY = dict(
             "would be attributed to the later request and a `--replay` in a fresh process might not reproduce it (call-history independence is "
             "C09's subject); the per-case oracle uses a budget of 400 000 search nodes, `judge` on a replay 3 000 000 (verdicts can only move "
             "from undecided to decided); gate kinds in the streams have dyadic gammas (cx, cz: 3; swap, iswap: 7; rzz(0): 1) so that every "
-            "compared product is exact in binary64 — non-dyadic gammas (rzz/cp at generic angles) are exercised by C07's tolerance stream only",
+            "compared product is exact in binary64; the budget stream adds rzz(asin s), s in {1/4, 1/2, 3/4}, with kappa exactly 3/2, 2, 5/2 (checked by a generator contract) — non-dyadic gammas (rzz/cp at generic angles) are exercised by C07's tolerance stream only",
         ],
     )
